@@ -3,4 +3,4 @@ Require Import Wbxml.Model.TreeGraph.
 Require Extraction.
 Require Import ExtrOcamlBasic.
 Extraction "model.ml" exec run init_state finish abs_list enc_walk events erase elt_get_from_name
-  no_adjacent_text append_merge remove_l ids_l roots_of mk_tlang mk_tagrow mk_nsrow mk_attrrow fuel_of.
+  no_adjacent_text append_merge remove_l ids_l roots_of mk_tlang mk_tagrow mk_nsrow mk_attrrow fuel_of fe_doc xdenote xnf xsize.
